@@ -14,6 +14,15 @@ CHECKS = {
     "C10": dict(tech="refcount reference model run in lock-step inside the harness + accounting allocator (m_set_memhook) under ASan/UBSan; exhaustive size sweep 0..4096",
                 text="Every size 0..4096 is enumerated (alignment, size, bounds by ASan, release), then random ref/unref histories incl. nested destructors are compared op-by-op with a refcount model while an accounting allocator checks that the enclosing allocation is freed exactly once, after the destructor. Exploration: histories are sampled.",
                 ref="C10"),
+    "C11": dict(tech="sorted-array reference model in lock-step inside the harness under ASan/UBSan; all permutations of K<=7 (quick) / 8 (thorough) keys x every removal and iterator-removal position, plus random programs with far-apart pointer keys",
+                text="Small scope is enumerated completely (every insertion order of up to K keys, every single removal, every iterator-removal position, all removal subsets for K<=6), every result, traversal order and destructor argument is compared with a sorted array; pre/post-order are cross-checked by rebuilding the tree. Random programs beyond that are sampled.",
+                ref="C11"),
+    "C12": dict(tech="array reference models in lock-step inside the harness under ASan/UBSan; exhaustive enumeration of all programs up to length 5 (quick) / 6 (thorough) over a 16-letter op alphabet incl. iterator edits at first/middle/last, plus random long programs",
+                text="All short programs are enumerated for queue, stack, list and list-with-comparator, with and without destructor; after every operation the container content, length and the destructor log are compared with an array model, and the container keeps being used after iterator edits. Longer programs are sampled.",
+                ref="C12"),
+    "C05": dict(tech="linear reference dictionary in lock-step inside the harness + per-operation allocator balance (m_set_memhook) under ASan/UBSan; adversarial key sets mined from the hash (same home slot, clusters wrapping the table end, growth)",
+                text="Random operation sequences over all flag combinations are compared call-by-call with a linear dictionary, including exactly-once visiting under removal during iteration, destructor argument identity and the allocation balance of every put/remove (private key copies). Key sets are adversarial by construction; sequences are sampled.",
+                ref="C05"),
 }
 
 NOT_YET = "check not built yet in this round (work in progress, see DESIGN.md §3 for the planned monitor)"
